@@ -830,7 +830,7 @@ def c20(ctx):
     deep = ctx.tier != "quick"
     if deep:
         n = ctx.tlaps_check("RegistryProofs.tla", needs=("Registry.tla",), abstract_ops=False,
-                            label="TLAPS: IndInv inductive => MutualExclusion, MapIsSpec, LookupSeesSpec for any number "
+                            label="TLAPS: IndInv inductive => MutualExclusion, MapIsSpec, LookupSeesSpec, RegisterTestAndSet for any number "
                                   "of processes, keys, values and calls")
         ctx.assumptions.append("TLAPS proof (%d obligations) is about the lock protocol of Registry.tla; the code is bound "
                                "to it by linearizability checking of recorded histories and the race detector" % n)
@@ -868,6 +868,31 @@ def c20(ctx):
                                "replay": {"kind": "none"}})
         elif len(ctx.cov["samples"]) < 3:
             ctx.cov["samples"].append({"registry_history": [json.loads(x) for x in lines[1:7]]})
+    # registrations of ONE version racing each other (the registry refuses a second factory): many rounds, the
+    # rounds in which not exactly one was accepted (and the first 25) go to TLC
+    rr = 3000 if ctx.tier == "quick" else 60000
+    for mp in (4, 16):
+        path = os.path.join(ctx.work, "registry_trace.ndjson")
+        if os.path.exists(path):
+            os.remove(path)
+        summ, races = run_race(ctx, ["register-race", "-rounds", str(rr), "-g", "16", "-o", path], mp, "register-race")
+        race_violation("racing registrations, GOMAXPROCS=%d" % mp, races)
+        if not os.path.exists(path):
+            continue
+        lines = open(path).read().splitlines()
+        bad = ctx.tlc_trace("RegistryTrace.tla", "RegistryTrace.cfg", path, "registry_trace.ndjson", histories=rr,
+                            label="%d rounds of 16 racing registrations of one version, GOMAXPROCS=%d: %s" % (rr, mp, json.dumps(summ)))
+        if bad is not None:
+            idx = min(bad, len(lines)) - 1
+            start = idx
+            while start > 0 and json.loads(lines[start]).get("event") != "Reset":
+                start -= 1
+            ctx.add_violation({"kind": "not-linearizable", "key": "not-linearizable:register:race",
+                               "detail": "racing registrations of one version: no order of the calls explains the results "
+                                         "(performed one at a time exactly one is accepted) - trace line %d" % bad,
+                               "case": {"history": [json.loads(x) for x in lines[start:idx + 1]], "summary": summ},
+                               "replay": {"kind": "none"}})
+
     # negative control: a lookup that returns a value nobody added must be rejected
     path = os.path.join(ctx.work, "registry_trace.ndjson")
     with open(path, "w") as f:
